@@ -159,7 +159,7 @@ func (c *Ctx) EncodeLemmas() (*Enc, error) {
 	e.usedGhost = map[string]bool{}
 	e.en = map[*ssa.BasicBlock]string{}
 	e.counts = map[string]int{}
-	e.entry = &State{m: map[string]string{}, enc: e}
+	e.entry = &State{m: map[string]string{}, b: map[string]string{}, enc: e}
 	var err error
 	func() {
 		defer func() {
